@@ -53,6 +53,11 @@ Theorem C11_expand_constraint_roundtrip : forall G cs xs,
 Proof. exact expand_constraint_roundtrip. Qed.
 Print Assumptions C11_expand_constraint_roundtrip.
 
+Theorem C11_empty_constraint_rejected : forall G cs,
+  In [] cs -> ne_expand_constraints G cs = NE_Err NE_ValueError.
+Proof. exact expand_constraints_rejects_empty. Qed.
+Print Assumptions C11_empty_constraint_rejected.
+
 Theorem C11_edge_constraint_keeps_trailing_node : forall G c x u v,
   ne_cons_edges G c = NE_Ok x -> c <> [] -> last c (NE_Node "") = NE_Edge u v ->
   last x ("", "") = (ne_exp0 v, ne_exp1 v).
